@@ -210,4 +210,20 @@ PROPS = {
         "trusted_base": ["hand transcription (trace replay each run)", "the oracle reads the federation graph off the implementation's own Dereference answers and evaluates AV.Spec.C02.reachActors (the function of the theorem) on it"],
         "assumptions": ["'Public is never dereferenced' is read for the addressed recipients; a Public IRI listed inside a fetched collection is fetched like any member"],
     },
+    "C17": {
+        "level": "proof",
+        "lean_modules": ["AV.Lemmas.JsonLemmas", "AV.Props.C17"],
+        "support_modules": ["AV.Spec.C17", "AV.Lemmas.Frame", "AV.Lemmas.JsonLemmas", "AV.Pub.Util", "AV.Pub.SideEffect"],
+        "theorems": [
+            "AV.Props.C17.frame_inv", "AV.Props.C17.hasIFV_Hv", "AV.Props.C17.colMembers_ret", "AV.Props.C17.recipLoop_ret",
+            "AV.Props.C17.fwdLoad_safe", "AV.Props.C17.afterLoad_safe", "AV.Props.C17.inboxForwarding_safe", "AV.J.beq_refl",
+        ],
+        "translator_scope": [r"gen_lean", r"T2 failed"],
+        "runners": [{"args": ["pub-C17", "900", "4", "forward,forward,inbox,forward"], "timeout": 1500}],
+        "exhaustive": {"quick": False, "thorough": False},
+        "rule": "activities whose to/cc/audience draw 1..3 values each from owned collections (ordered and unordered), a foreign collection, an owned non-collection, local and remote actors and Public; reply chains of 0..5 links through inReplyTo/tag/object/target, each link embedded or an IRI to fetch, the owned link at a random level or absent; forwarding depth 1..4; filter all / one collection / none; each activity delivered 1..3 times to one or two local inboxes, earlier deliveries with a fault part-way; plus the general inbox family; single faults on the last delivery. "
+                "non-trivial = the forwarding stage was reached; distinct by scenario hash",
+        "trusted_base": ["hand transcription (trace replay each run)", "the oracle decides 'an owned value is reachable within the depth' with AV.Spec.C17.ownsValueSpec on the scenario's own ownership table and documents"],
+        "assumptions": [],
+    },
 }
